@@ -832,3 +832,83 @@ def transcript(driver, start=None):
         else:
             out.append([label(k) + " -> " + str(f.get("method")), normalise_result("", f.get("params"))])
     return out
+
+
+# ---------------------------------------------------------------- C18
+
+CONFIG_NAMES = (".fortlsrc", ".fortls.json", ".fortls")
+
+
+def check_c18(ctx, sched):
+    import re
+
+    from .props import c18
+
+    d = ctx["driver"]
+    tree = sched.get("tree", {})
+    files = {p for p in tree if not p.endswith("/")}
+    dirs = {p.rstrip("/") for p in tree if p.endswith("/")}
+    for f in files:
+        x = os.path.dirname(f)
+        while x.startswith(ROOT) and x != ROOT:
+            dirs.add(x)
+            x = os.path.dirname(x)
+    cfg = sched["c18"]
+    expected = c18.expected_index(ROOT, files, dirs, cfg)
+    faulted = {f["path"] for f in S.fired if f["seam"] == "open" and f["kind"] != "race"}
+    if any(os.path.basename(p) in CONFIG_NAMES for p in faulted):
+        return  # the configuration itself was hit: C19's subject
+    argv = sched.get("argv", [])
+    feats = []
+    for k in ("source_dirs", "excl_paths", "incl_suffixes", "excl_suffixes"):
+        v = cfg.get(k)
+        if v is None:
+            continue
+        chan = "cli" if ("--" + k) in argv else "file"
+        kinds = sorted({("abs" if os.path.isabs(x) else "dot" if x in (".", "./") else
+                         "glob" if re.search(r"[*?\[]", x) else "lit") for x in v})
+        feats.append(f"{k}={chan}:{'+'.join(kinds)}")
+    feat = " ".join(feats) or "defaults"
+    init = [o["f"] for o in d.out if is_response(o["f"]) and o["op"] == 0]
+    if init and "error" in init[0]:
+        violation("C18", "initialize-failed", err_site(init[0]),
+                  f"{feat}: {str(strip_tb(init[0]))[:300]}", coarse="initialize-failed:" + err_site(init[0]))
+        return
+    obs = [o for o in d.obs if o["what"] == "indexed"]
+    if not obs:
+        return
+    got = set(obs[0]["files"])
+    missing = expected - got - faulted
+    extra = got - expected
+    if missing or extra:
+        kind = "+".join(k for k, v in (("missing", missing), ("extra", extra)) if v)
+        violation("C18", "index-set", f"{kind} [{feat}]",
+                  f"expected {sorted(expected)} got {sorted(got)} faulted {sorted(faulted)}; cfg={cfg}",
+                  coarse="index-set:" + kind)
+        return
+    # black box: the same set seen through workspace/symbol
+    names = set()
+    for o in d.out:
+        f = o["f"]
+        if is_response(f) and isinstance(f.get("result"), list):
+            for sym in f["result"]:
+                if isinstance(sym, dict) and str(sym.get("name", "")).startswith("umod"):
+                    try:
+                        names.add((sym["name"], os.path.normpath(frames.uri_decode(sym["location"]["uri"]))))
+                    except Exception:
+                        names.add((sym.get("name"), "?"))
+    want = set()
+    for p in expected - faulted:
+        m = re.search(r"module (umod\d+)", tree[p] if isinstance(tree[p], str) else "")
+        if m:
+            want.add((m.group(1), p))
+    if names != want and not (expected & faulted):
+        violation("C18", "symbols", f"workspace/symbol disagrees with the indexed set [{feat}]",
+                  f"want {sorted(want)} got {sorted(names)}", coarse="symbols")
+    # a faulted file must be announced
+    for p in sorted(expected & faulted):
+        if p in got:
+            continue
+        if not any(o["f"].get("method") == "window/showMessage" and p in str(o["f"]["params"].get("message"))
+                   for o in d.out):
+            violation("C18", "unannounced", "an unreadable source file was dropped silently", p)
